@@ -18,14 +18,16 @@ var Schemas = []string{
 	`{"minLength":1}`, `{"maxLength":1}`, `{"pattern":"^a"}`, `{"pattern":"^[0-9]+$"}`, `{"maxLength":0}`,
 	`{"items":{"type":"integer"}}`, `{"items":{"maximum":1}}`, `{"prefixItems":[{"type":"integer"},{"type":"string"}]}`, `{"prefixItems":[{"const":1}],"items":false}`, `{"contains":{"const":1}}`, `{"contains":{"type":"string"},"minContains":1,"maxContains":1}`, `{"uniqueItems":true}`, `{"minItems":1}`, `{"maxItems":1}`, `{"items":{"items":{"type":"integer"}}}`, `{"unevaluatedItems":false,"prefixItems":[true]}`,
 	`{"properties":{"a":{"type":"integer"}}}`, `{"properties":{"a":{"const":1}},"required":["a"]}`, `{"patternProperties":{"^a":{"type":"integer"}}}`, `{"additionalProperties":false,"properties":{"a":true}}`, `{"additionalProperties":{"type":"integer"}}`, `{"propertyNames":{"maxLength":1}}`, `{"required":["a"]}`, `{"required":["a","b"]}`, `{"minProperties":1}`, `{"maxProperties":1}`, `{"dependentRequired":{"a":["b"]}}`, `{"dependentSchemas":{"a":{"required":["b"]}}}`, `{"unevaluatedProperties":false,"properties":{"a":true}}`, `{"properties":{"a":{"properties":{"b":{"type":"integer"}}}}}`, `{"properties":{"a":{"items":{"type":"integer"}}}}`,
+	`{"enum":["12","1","1.5"]}`, `{"const":"12"}`, `{"not":{"enum":["1","a"]}}`, `{"items":{"enum":["1"]}}`, `{"properties":{"a":{"enum":["1","1.5"]}}}`, `{"const":{"a":null}}`, `{"enum":[[null],[1,2]]}`,
+	`{"$schema":"http://json-schema.org/draft-07/schema#","items":[{"type":"integer"}],"additionalItems":false}`, `{"$schema":"http://json-schema.org/draft-07/schema#","dependencies":{"a":["b"],"b":{"minProperties":2}}}`, `{"$schema":"http://json-schema.org/draft-07/schema#","items":[{"const":1}],"additionalItems":{"type":"string"}}`,
 	`{"allOf":[{"type":"integer"},{"minimum":1}]}`, `{"anyOf":[{"type":"string"},{"minimum":256}]}`, `{"not":{"type":"integer"}}`, `{"if":{"type":"integer"},"then":{"minimum":1},"else":{"type":"string"}}`, `{"oneOf":[{"type":"integer"},{"minimum":1.5}]}`,
 }
 
 // Values: exact in float64 (the canonical decoding must carry the same value).
 var Values = []string{
 	`null`, `true`, `false`, `0`, `1`, `-1`, `1.5`, `0.5`, `2`, `255`, `256`, `9007199254740992`, `9223372036854775808`, `-9223372036854775808`, `18446744073709551616`,
-	`""`, `"a"`, `"ab"`, "\"é\"", `"12"`,
-	`[]`, `[1]`, `[1,2]`, `[1,"a"]`, `[1,1]`, `[[1]]`, `[1,1.5]`, `["a","a"]`, `[null]`, `[{"a":1}]`, `[256,256]`, `[65536,65536]`, `[9223372036854775808,9223372036854775808]`, `[-9223372036854775808,-9223372036854775808]`, `[1.5,1.5]`, `[0,0]`, `[{"a":1},{"a":1}]`, `[[256],[256]]`,
+	`""`, `"a"`, `"ab"`, "\"é\"", `"12"`, `"1"`, `"1.5"`, `12`, `["1"]`, `{"a":"1"}`,
+	`[]`, `[1]`, `[1,2]`, `[1,"a"]`, `[1,1]`, `[[1]]`, `[1,1.5]`, `["a","a"]`, `[null]`, `[{"a":1}]`, `[256,256]`, `[65536,65536]`, `[9223372036854775808,9223372036854775808]`, `[-9223372036854775808,-9223372036854775808]`, `[1.5,1.5]`, `[0,0]`, `[{"a":1},{"a":1}]`, `[[256],[256]]`, `[[1,2],[1,3]]`, `[[1,2],[1,2]]`, `[null,null]`, `[null,1]`,
 	`{}`, `{"a":1}`, `{"a":1,"b":2}`, `{"a":"x"}`, `{"a":[1]}`, `{"a":{"b":1}}`, `{"ab":1}`, `{"b":1}`, `{"a":null}`, `{"a":1.5}`,
 }
 
